@@ -5,6 +5,7 @@ import (
 	"encoding/hex"
 	"io"
 	"lunar/engine/utils/environment"
+	"lunar/toolkit-core/verifhook"
 	"os"
 	"path/filepath"
 )
@@ -157,6 +158,10 @@ func (fs *FileSystemOperation) SaveMetricsConfig(content []byte) error {
 }
 
 func (fs *FileSystemOperation) cleanUpFile(filePath string) error {
+	verifhook.Point("fs.remove", "path", filePath)
+	if err := verifhook.Fault("fs.remove"); err != nil {
+		return err
+	}
 	if err := os.Remove(filePath); err != nil && !os.IsNotExist(err) {
 		return err
 	}
@@ -169,6 +174,10 @@ func (fs *FileSystemOperation) cleanUpDirectory(cleanupPath string) error {
 			return err
 		}
 		if !info.IsDir() {
+			verifhook.Point("fs.remove", "path", path)
+			if err := verifhook.Fault("fs.remove"); err != nil {
+				return err
+			}
 			return os.Remove(path)
 		}
 		return nil
@@ -181,6 +190,10 @@ func (fs *FileSystemOperation) storeFileOnDisk(filePath string, content []byte) 
 
 	dir := filepath.Dir(filePath)
 	if err := os.MkdirAll(dir, os.ModePerm); err != nil {
+		return err
+	}
+	verifhook.Point("fs.store", "path", filePath)
+	if err := verifhook.Fault("fs.store"); err != nil {
 		return err
 	}
 
